@@ -500,6 +500,12 @@ def concatenate(samplesets, defaults=None):
     return SampleSet(record, variables, {}, vartype)
 
 
+def _astype_field(record, name, dtype):
+    # copy of the record with one of its fields cast to the given dtype
+    return record.astype([(n, (dtype, record.dtype[n].shape) if n == name else record.dtype[n])
+                          for n in record.dtype.names])
+
+
 def _iter_records(samplesets, vartype, variables):
     # coerce each record into the correct vartype and variable-order
     for samples in samplesets:
@@ -1389,12 +1395,19 @@ class SampleSet(abc.Iterable, abc.Sized):
         vartype = as_vartype(vartype, extended=True)  # cast to correct vartype
 
         if energy_offset:
-            self.record.energy = self.record.energy + energy_offset
+            energy = self.record.energy + energy_offset
+            if not np.can_cast(energy.dtype, self.record.energy.dtype, casting='same_kind'):
+                # e.g. integer energies and a fractional offset
+                self._record = _astype_field(self.record, 'energy', energy.dtype)
+            self.record.energy = energy
 
         if vartype is self.vartype:
             return self  # we're done!
 
         if vartype is Vartype.SPIN and self.vartype is Vartype.BINARY:
+            if self.record.sample.dtype.kind in 'bu':
+                # bool and unsigned integers cannot represent -1
+                self._record = _astype_field(self.record, 'sample', np.int8)
             self.record.sample = 2 * self.record.sample - 1
             self._vartype = vartype
         elif vartype is Vartype.BINARY and self.vartype is Vartype.SPIN:
